@@ -34,6 +34,7 @@ impl<T> RwLock<T> {
         loop {
             if self.1.load(Ordering::SeqCst) == 0 || rt::in_atomic() {
                 if let Some(g) = self.0.try_read() {
+                    rt::sched_point_throttled(rt::site_hash(std::panic::Location::caller()) ^ 0x1d);
                     return g;
                 }
             }
@@ -55,6 +56,7 @@ impl<T> RwLock<T> {
                 if waiting {
                     self.1.fetch_sub(1, Ordering::SeqCst);
                 }
+                rt::sched_point_throttled(rt::site_hash(std::panic::Location::caller()) ^ 0x1d);
                 return g;
             }
             if !waiting {
@@ -64,6 +66,26 @@ impl<T> RwLock<T> {
             let l = &self.0;
             rt::block("rwlock.write", &move || !l.is_locked());
         }
+    }
+}
+
+impl<T> RwLock<T> {
+    #[track_caller]
+    pub fn try_read(&self) -> Option<parking_lot::RwLockReadGuard<'_, T>> {
+        if rt::active() {
+            rt::sched_point_throttled(rt::site_hash(std::panic::Location::caller()));
+            if self.1.load(Ordering::SeqCst) != 0 {
+                return None; // a writer is queued (writer preference)
+            }
+        }
+        self.0.try_read()
+    }
+    #[track_caller]
+    pub fn try_write(&self) -> Option<parking_lot::RwLockWriteGuard<'_, T>> {
+        if rt::active() {
+            rt::sched_point_throttled(rt::site_hash(std::panic::Location::caller()));
+        }
+        self.0.try_write()
     }
 }
 
@@ -95,13 +117,35 @@ impl<T: ?Sized> Mutex<T> {
         }
         rt::maybe_stall_worker_at_lock();
         rt::sched_point_throttled(rt::site_hash(std::panic::Location::caller()));
+        let site = rt::site_hash(std::panic::Location::caller());
         loop {
             if let Some(g) = self.0.try_lock() {
+                // a thread can be preempted INSIDE its critical section as well: the others then
+                // find the lock taken (they block, or their try_lock fails)
+                rt::sched_point_throttled(site ^ 0x1d);
                 return g;
             }
             let l = &self.0;
             rt::block("mutex.lock", &move || !l.is_locked());
         }
+    }
+
+    #[track_caller]
+    pub fn try_lock(&self) -> Option<parking_lot::MutexGuard<'_, T>> {
+        if rt::active() {
+            let site = rt::site_hash(std::panic::Location::caller());
+            rt::sched_point_throttled(site);
+            let g = self.0.try_lock();
+            if g.is_some() {
+                rt::sched_point_throttled(site ^ 0x1d);
+            }
+            return g;
+        }
+        self.0.try_lock()
+    }
+
+    pub fn is_locked(&self) -> bool {
+        self.0.is_locked()
     }
 }
 
